@@ -276,6 +276,39 @@ func genC02(tier, out string, sum *Summary) {
 			}
 		}
 	}
+	// the three trims: an omitted, an empty and an explicit character set, on subjects padded at either end
+	for _, subj := range []string{"  x  ", "x  ", "  x", "\t x \n", "xx a xx", "", "   ", "a b"} {
+		d := map[string]any{"s": subj}
+		for _, f := range []struct {
+			name        string
+			left, right bool
+		}{{"trim", true, true}, {"trim_left", true, false}, {"trim_right", false, true}} {
+			want := subj
+			if f.left {
+				want = strings.TrimLeft(want, " \t\n\r")
+			}
+			if f.right {
+				want = strings.TrimRight(want, " \t\n\r")
+			}
+			for _, e := range []string{f.name + "(s)", f.name + "(s, '')"} {
+				o := run(e, d, false)
+				sum.count("trim-defaults")
+				if !(o.Kind == "val" && o.Value == want) {
+					sum.direct("spec-example", e, d, "expected "+toJSON(want)+", got "+describe(o))
+				}
+			}
+			wx := subj
+			if f.left {
+				wx = strings.TrimLeft(wx, "x ")
+			}
+			if f.right {
+				wx = strings.TrimRight(wx, "x ")
+			}
+			if o := run(f.name+"(s, 'x ')", d, false); !(o.Kind == "val" && o.Value == wx) {
+				sum.direct("spec-example", f.name+"(s, 'x ')", d, "expected "+toJSON(wx)+", got "+describe(o))
+			}
+		}
+	}
 	// aggregates round once, half to even
 	for _, c := range []ex{{"sum(`[20000000000000000000000000000000000, 5]`)", json.Number("2e34")}, {"sum(`[20000000000000000000000000000000000, 15]`)", json.Number("20000000000000000000000000000000020")}, {"sum(`[2e34, 2, 3]`)", json.Number("2e34")},
 		{"sum(`[20000000000000000000000000000000000, 5.000000001]`)", json.Number("20000000000000000000000000000000010")}, {"avg(`[4e34, 10]`)", json.Number("2e34")}, {"sum(`[9999999999999999999999999999999999, 0.5]`)", json.Number("1e34")}, {"avg(`[1, 1, 0.9999999999999999999999999999999999]`)", json.Number("1")},
@@ -455,7 +488,7 @@ func genC14(tier, out string, sum *Summary) {
 	base := func() map[string]any {
 		nums := []string{"0", "1", "2", "3", "4", "7", "-7", "-1", "100", "0.5", "2.5", "-2.5", "1.0", "3.0", "127", "255"}
 		if rng.Intn(3) == 0 { // integers beyond the binary64 mantissa and at the 64-bit limits (never representable as floats)
-			nums = []string{"9007199254740992", "9007199254740993", "9007199254740994", "-9007199254740993", "9223372036854775807", "9223372036854775806", "-9223372036854775808", "18446744073709551615", "4611686018427387905", "2", "1"}
+			nums = []string{"9007199254740992", "9007199254740993", "9007199254740994", "-9007199254740993", "9223372036854775807", "9223372036854775806", "-9223372036854775808", "9223372036854775808", "18446744073709551615", "18446744073709551616", "4611686018427387904", "4611686018427387905", "2", "1"}
 		}
 		pn := func() json.Number { return json.Number(pick(nums)) }
 		pi := func() json.Number { return json.Number(pick([]string{"0", "1", "2", "3", "4", "7"})) }
@@ -508,16 +541,94 @@ func genC14(tier, out string, sum *Summary) {
 			}
 		}
 	}
+	// every combination of two constructs on documents whose numbers are carried by every kind in turn
+	{
+		ndocs := []any{jsonDoc(`{"a": [3, 1, 2, 1], "b": 2}`), jsonDoc(`{"a": {"a": 1, "b": [3, 0]}, "b": [{"a": 2}, {"a": 1}, 5]}`), jsonDoc(`[[1, 2], [3], [], 0]`), jsonDoc(`{"a": -3, "b": 7}`), jsonDoc(`[{"a": 1, "b": 2}, {"a": 3}, null, {"a": 0, "b": 1}]`), jsonDoc(`{"a": 127, "b": [255, 1, 0]}`)}
+		k := 0
+		for i, sc := range smallScope(ssCfg{funcs: true, bools: true, lets: true}, 1, 0) {
+			if tier != "thorough" && i%4 != 0 {
+				continue
+			}
+			text := unparse(sc.e)
+			doc := ndocs[i%len(ndocs)]
+			ref := search(text, doc)
+			un := hasEnum(sc.e)
+			if un && orderSensitive(sc.e) {
+				continue
+			}
+			for rep := 0; rep < 3; rep++ {
+				k++
+				kc := kindConvs[k%len(kindConvs)]
+				if strings.Contains(text, "to_string") && (kc.name == "float64" || kc.name == "float32" || strings.HasPrefix(kc.name, "decimal") || strings.Contains(kc.name, "spelled")) {
+					continue // the text of a number is not kind-independent
+				}
+				d2 := rekind(doc, func(num json.Number) any {
+					if v, ok := kc.conv(num); ok {
+						return v
+					}
+					return num
+				})
+				if usesFloat(d2) && !allNumbersFloat(d2) {
+					continue
+				}
+				o := search(text, d2)
+				sum.count("small-scope")
+				if !sameObs(ref, o, un) {
+					sum.direct("kind-dependence", text, doc, fmt.Sprintf("with json.Number leaves %s; with %s leaves (%#v) it gives %s", describe(ref), kc.name, d2, describe(o)))
+				}
+			}
+		}
+	}
+	// functions that only order or compare may see floats next to every other kind
+	for _, trio := range [][3]string{{"2.5", "1", "3"}, {"3", "2", "1"}, {"0.5", "-1", "0"}, {"2", "2.5", "2"}, {"9007199254740992", "1", "9007199254740993"}} {
+		docJ := map[string]any{"l": []any{json.Number(trio[0]), json.Number(trio[1]), json.Number(trio[2])}}
+		for _, e := range []string{"sort(l)", "max(l)", "min(l)", "sort_by(l, &@)", "max_by(l, &@)", "l[?@ > `1`]", "l[0] == l[2]", "contains(l, `2`)", "sort(l)[0] == min(l)", "l[0] < l[1]", "[l[0], l[1]] == [l[0], l[1]]"} {
+			ref := search(e, docJ)
+			for fi := 0; fi < 3; fi++ {
+				for _, k := range kindConvs {
+					if k.name == "float64" || k.name == "float32" {
+						continue
+					}
+					vals := make([]any, 3)
+					okAll := true
+					for j := range vals {
+						conv := k.conv
+						if j == fi {
+							conv = kindConvs[2].conv // float64
+						}
+						v, ok := conv(json.Number(trio[j]))
+						if !ok {
+							okAll = false
+						}
+						vals[j] = v
+					}
+					if !okAll {
+						continue
+					}
+					d2 := map[string]any{"l": vals}
+					o := search(e, d2)
+					sum.count("float-among-kinds")
+					if !sameObs(ref, o, false) {
+						sum.direct("kind-dependence", e, docJ, fmt.Sprintf("with json.Number elements %s; with elements %#v it gives %s", describe(ref), vals, describe(o)))
+					}
+				}
+			}
+		}
+	}
 	// systematic matrix: every operator x sign / magnitude combinations x every kind (uniform documents)
 	pairs := [][2]string{{"7", "2"}, {"-7", "2"}, {"7", "-2"}, {"-7", "-2"}, {"2.5", "-0.5"}, {"-2.5", "0.5"}, {"0", "3"}, {"3", "3"},
 		{"9007199254740992", "9007199254740993"}, {"9007199254740993", "9007199254740992"}, {"9223372036854775806", "9223372036854775807"}, {"-9223372036854775808", "-9223372036854775807"},
-		{"4611686018427387904", "4611686018427387905"}, {"18446744073709551614", "18446744073709551615"}, {"127", "-128"}, {"255", "1"}}
-	ops := []string{"a < b", "a <= b", "a > b", "a >= b", "a == b", "a != b", "a + b", "a - b", "a * b", "a / b", "a // b", "a % b", "- a // b", "max([a, b])", "min([a, b])", "sort([a, b])", "[a, b][?@ > $.a]", "[a, b][?@ <= $.b]", "max_by([{n: a}, {n: b}], &n).n", "sort_by([{n: a}, {n: b}], &n)[0].n", "abs(a)", "a // b * b + a % b", "contains([a], b)", "a && b", "type(a)"}
-	for _, pr := range pairs {
+		{"4611686018427387904", "4611686018427387905"}, {"18446744073709551614", "18446744073709551615"}, {"127", "-128"}, {"255", "1"},
+		{"-128", "127"}, {"-32768", "1"}, {"-2147483648", "3"}, {"-9223372036854775808", "1"}, {"9223372036854775808", "1"}, {"9223372036854775808", "-9223372036854775808"}, {"18446744073709551616", "2"}, {"4294967296", "65536"}}
+	ops := []string{"a < b", "a <= b", "a > b", "a >= b", "a == b", "a != b", "a + b", "a - b", "a * b", "a / b", "a // b", "a % b", "- a // b", "max([a, b])", "min([a, b])", "sort([a, b])", "[a, b][?@ > $.a]", "[a, b][?@ <= $.b]", "max_by([{n: a}, {n: b}], &n).n", "sort_by([{n: a}, {n: b}], &n)[0].n", "abs(a)", "- a", "- a > `0`", "a + - a", "sum([a, b])", "avg([a, b])", "sum([a])", "max([a, - a])", "+ a", "type(+ a)", "ceil(a)", "floor(b)", "to_number(a)", "sum([a, b]) > `0`", "a // b * b + a % b", "contains([a], b)", "a && b", "type(a)"}
+	for pi, pr := range pairs {
 		docJ := map[string]any{"a": json.Number(pr[0]), "b": json.Number(pr[1])}
 		for _, e := range ops {
 			ref := search(e, docJ)
 			for _, k := range kindConvs {
+				if pi >= 16 && (k.name == "float64" || k.name == "float32") {
+					continue // quotients and sums of these pairs are not exactly representable in binary
+				}
 				va, oka := k.conv(json.Number(pr[0]))
 				vb, okb := k.conv(json.Number(pr[1]))
 				if !oka || !okb {
